@@ -514,7 +514,7 @@ var initDeny = map[string]bool{
 	"errors": true, "internal/reflectlite": true, "internal/abi": true, "fmt": true, "strconv": false,
 	"os": true, "syscall": true, "runtime": true, "reflect": true, "net": true, "os/signal": true,
 	"internal/poll": true, "internal/godebug": true, "os/exec": true, "os/user": true, "crypto/rand": true,
-	"net/http": true, "testing": true, "flag": true, "log": true, "time": true, "sync": true, "unicode": true,
+	"net/http": true, "testing": true, "flag": true, "log": true, "time": true, "sync": true,
 	"internal/cpu": true, "internal/bytealg": true, "crypto/tls": true, "crypto/x509": true, "math/rand": true,
 	"internal/syscall/unix": true, "encoding/json": true, "regexp/syntax": true, "html": true, "mime": true,
 	"golang.org/x/sys/unix": true, "golang.org/x/sys/cpu": true, "internal/testlog": true, "io/fs": false,
